@@ -38,7 +38,7 @@ def run_property(pid, prog, cg, tier, shared=None, out=print, write=True):
         thorough.package_lints(ctx)
         harness.run_for_property(ctx, out=out)
         thorough.transforms_for(ctx, out=out)
-    return emit(ctx, time.time() - t0, getattr(mod, "LEVEL_TEXT", mod.__doc__ or ""), out=out, write=write), ctx
+    return emit(ctx, time.time() - t0, (getattr(mod, "LEVEL_TEXT", mod.__doc__ or "") + " " + getattr(mod, "LEVEL_EXTRA", "")).strip(), out=out, write=write), ctx
 
 
 def main(argv=None):
